@@ -113,7 +113,7 @@ def case_fit(case):
                 return True, f"family={name} checks={combo} B={B} yield#{k} bounds={r[0].bounds} A={[p.pattern.A.tolist() for p in r]}: {bad}"
         return False, f"B={B}: {len(out)} yields fit"
 
-    return run_case(fn, replay, signature=lambda f, v: "fit:" + f["name"],
+    return run_case(fn, replay, witness=True, signature=lambda f, v: "fit:" + f["name"],
                     sample=dict(family=name, extra_checks=combo), key=str((name, combo)), max_paths=3000, timeout_ms=10000)
 
 
@@ -161,7 +161,7 @@ def case_pred(case):
         exp = z3.is_true(z3.simplify(decl(mats)))
         return got != exp, f"{pred} sizes={sizes} A={[m.tolist() for m in mats]} template_dims={scols}: real={got} definition={exp}"
 
-    return run_case(fn, replay, signature=lambda f, v: f["name"], sample=dict(pred=pred, shape=(nops, rows, tcols, scols), sizes=sizes),
+    return run_case(fn, replay, witness=True, signature=lambda f, v: f["name"], sample=dict(pred=pred, shape=(nops, rows, tcols, scols), sizes=sizes),
                     key=str(case), max_paths=6000)
 
 
@@ -201,7 +201,7 @@ def case_matches(case):
         r, o = real(), oracle()
         return r != o, f"template A={tA.tolist()} schedule A={sA.tolist()} matches={r} exact={o}"
 
-    return run_case(fn, replay, signature="matches:agrees_with_exact_rowspace", sample=dict(template=tA.tolist(), schedule=sA.tolist()),
+    return run_case(fn, replay, witness=True, signature="matches:agrees_with_exact_rowspace", sample=dict(template=tA.tolist(), schedule=sA.tolist()),
                     key=str(case))
 
 
